@@ -234,6 +234,8 @@ def run_diff(case):
                 check(res.values.dtype.kind == "f", "int-not-promoted", {"what": what, "dtype": str(res.values.dtype)}, sig) if hasattr(res, "values") else None
         else:
             exp = d
+            # without padding the differences have NumPy's type (differences of integers are integers)
+            check(res.values.dtype == d.dtype, "dtype", {"what": what, "got": str(res.values.dtype), "expected": str(d.dtype)}, sig)
             if scheme == "backward":
                 newlabs = list(labs)[n:]
             elif scheme == "forward":
